@@ -156,6 +156,72 @@ def qr_lit(case, r):
         leg_lit(r['R']['inner']), zl(r['Q']['qtotal']), zl(r['R']['qtotal']))
 
 
+def lq_lit(case, r):
+    """Model/FactorCase2.v check_lq_case: the blocked structure of a itself (lq_charges transposes)"""
+    b = r['blocked_a']
+    return '((%s, %s, %s, %s, %s, %s, %s, %s, (%d), (%s, %s, %s)) : lq_case_t)' % (
+        zl(case['mods']), leg_lit(b['legL']), leg_lit(b['legR']), zl(b['qtotal']), qdata_lit(b['qdata']), zl(r['ks_a']),
+        'true' if case['opts']['mode'] == 'complete' else 'false', oz(r['qtq']), case['opts']['inner_qconj'],
+        leg_lit(r['R']['inner']), zl(r['Q']['qtotal']), zl(r['R']['qtotal']))
+
+
+def zm(rows):
+    return '[' + '; '.join(zl(r) for r in rows) + ']'
+
+
+def nl(xs):
+    return '[' + '; '.join('%d%%nat' % x for x in xs) + ']'
+
+
+def ents_lit(es):
+    return '[' + '; '.join('(%d%%nat, %d%%nat, %s)' % (i, j, zm(m)) for i, j, m in es) + ']'
+
+
+def plan_case(rng, seed, what):
+    if what == 'eig':
+        c = rand_matrix(rng, seed, square=True, hermitian=rng.random() < 0.5)
+        c['opts'] = {}
+    else:
+        c = rand_matrix(rng, seed)
+        if what == 'posdiag':
+            c['opts'] = {'mode': rng.choice(['reduced', 'reduced', 'complete']), 'inner_qconj': rng.choice([1, -1]),
+                         'zero_rate': rng.choice([0.0, 0.0, 0.0, 0.15])}
+        else:
+            c['opts'] = {'full_matrices': rng.random() < 0.25, 'inner_qconj': rng.choice([1, -1])}
+    c['surgery'] = [m for m in c['surgery'] if m in ('keep', 'drop')]      # values come from the stub; only the block structure matters
+    c['plan'] = what
+    return c
+
+
+def plan_lits(case, r):
+    """(checker, literal) pairs of Model/FactorCase2.v for one 'plan' result"""
+    what = case['plan']
+    b = r['blocked']
+    if what == 'eig':
+        eigs = '[' + '; '.join('(%s, %s)' % (zl(w), zm(v)) for w, v in r['eigs']) + ']'
+        return [('check_eig_case', '((%s, %s, %s, (%s, %s)) : eig_case_t)' % (
+            leg_lit(b['legL']), qdata_lit(b['qdata']), eigs, ents_lit(r['resv']), zl(r['resw'])))]
+    if what == 'posdiag':
+        out = []
+        for k in r['blocks']:
+            o = 'None' if k['out'] is None else '(Some (%s, %s))' % (zm(k['out'][0]), zm(k['out'][1]))
+            out.append(('check_posdiag_case', '((%d%%nat, %d%%nat, %d%%nat, %s, %s, %s) : posdiag_case_t)' % (
+                k['M'], k['P'], k['N'], zm(k['Q']), zm(k['R']), o)))
+        return out
+    if what == 'svdasm':
+        if 'raised' in r:
+            return []
+        fs = '[' + '; '.join('(%d%%nat, %d%%nat, (%d%%nat, %s, %s, %s))' % (i, j, n, zm(U), zl(S), zm(V)) for i, j, n, U, S, V in r['fs']) + ']'
+        return [('check_svd_dense_case', '((%s, %s, %s, %s, (%s, %s, %s, %s)) : svd_dense_case_t)' % (
+            nl(r['rs']), nl(r['cs']), fs, 'true' if case['opts']['full_matrices'] else 'false',
+            ents_lit(r['U']), zl(r['S']), ents_lit(r['V']), nl(r['ns'])))]
+    return []
+
+
+PLAN_IMPORTS = ['Base.Prelude', 'Model.ChargeL', 'Model.Leg', 'Model.Factor', 'Model.FactorCase', 'Model.Factor2', 'Model.FactorDense',
+                'Model.FactorCase2']
+
+
 def run_chunks(kind, cases, config='py'):
     n = common.NPROC
     chunks = [cases[i::n] for i in range(n)]
@@ -195,7 +261,7 @@ def match_key(key):
 
 def main(ctx):
     rng = ctx.rng
-    ctx.proof = common.check_proofs('C05', extra_targets=['Model/FactorCase.vo'])
+    ctx.proof = common.check_proofs('C05', extra_targets=['Model/FactorCase.vo', 'Model/FactorCase2.vo'])
     boost = 1 if ctx.proof.ok else 3
     base = ctx.seed * 1000003
     streams = [
@@ -204,16 +270,23 @@ def main(ctx):
         ('eig', [eig_case(rng, base + 200000 + i) for i in range(ctx.pick(350, 2200) * boost)]),
         ('pinv', [rand_matrix(rng, base + 300000 + i) for i in range(ctx.pick(300, 2000) * boost)]),
         ('ortho', [ortho_case(rng, base + 400000 + i) for i in range(ctx.pick(300, 2000) * boost)]),
+        # the code around the per-block LAPACK calls with stubbed integer-valued LAPACK results (tie of eig_plan, pos_diag, svd assembly)
+        ('plan', [plan_case(rng, base + 500000 + i, w) for w in ('eig', 'posdiag', 'svdasm') for i in range(ctx.pick(90, 600) * boost)]),
     ]
     ctx.cov['traces_validated_against_impl'] = 0
     hist = {}
+    import time
     for kind, cases in streams:
+        t_stream = time.time()
+        ctx.cov.setdefault('timings_s', {})[kind] = None
         cases = [c['case'] for c in common.corpus_cases('C05') if c.get('stream') == kind] + cases
         res, err = run_chunks(kind, cases)
         if err:
             ctx.fail('correspondence', '%s runner failed: %s' % (kind, err[-600:]), None)
             continue
         lits, lit_idx = [], []
+        lq_lits, lq_idx = [], []
+        plan = {}
         for i, (case, r) in enumerate(zip(cases, res)):
             if 'runner_error' in r:
                 ctx.fail('oracle', '%s raised on a valid matrix: %s' % (kind, r['runner_error'][-500:]), {'stream': kind, 'case': case},
@@ -231,6 +304,21 @@ def main(ctx):
             if kind == 'qr' and 'Q' in r and not any(k is None for k in r['ks']):
                 lits.append(qr_lit(case, r))
                 lit_idx.append(i)
+                if case['opts'].get('lq') and 'blocked_a' in r:
+                    lq_lits.append(lq_lit(case, r))
+                    lq_idx.append(i)
+            if kind == 'plan':
+                if r.get('order_ok') is False or r.get('legs_ok') is False or r.get('inner_contractible') is False \
+                        or (r.get('raised') and not r.get('all_zero')) or any(not k['shapes_ok'] for k in r.get('blocks', [])):
+                    ctx.fail('correspondence', 'plan stream (%s): the stubbed LAPACK calls are not one per stored block in _data order / result '
+                             'legs unexpected: %s' % (case['plan'], {k: r.get(k) for k in ('order_ok', 'legs_ok', 'raised', 'inner_contractible')}),
+                             {'stream': kind, 'case': case})
+                    continue
+                for chk, lit in plan_lits(case, r):
+                    plan.setdefault(chk, ([], []))
+                    if len(plan[chk][0]) < 400:
+                        plan[chk][0].append(lit)
+                        plan[chk][1].append(i)
         if lits:
             checker = 'check_svd_case' if kind == 'svd' else 'check_qr_case'
             bad, err = common.coq_failing_indices('cases_c05_' + kind, ['Base.Prelude', 'Model.ChargeL', 'Model.Leg', 'Model.Factor', 'Model.FactorCase'],
@@ -242,6 +330,23 @@ def main(ctx):
                 ctx.fail('correspondence', 'Model/Factor.v and %s disagree on the inner leg / total charges' % kind,
                          {'stream': kind, 'case': cases[i], 'impl': res[i]})
             ctx.cov['traces_validated_against_impl'] += len(lits)
+        if lq_lits:
+            plan['check_lq_case'] = (lq_lits, lq_idx)
+        from concurrent.futures import ThreadPoolExecutor
+        with ThreadPoolExecutor(max_workers=4) as ex:          # one coqc per checker and shard; the checkers run side by side
+            futs = {chk: ex.submit(common.coq_failing_indices, 'cases_c05_' + chk, PLAN_IMPORTS, chk, pl, shard=100)
+                    for chk, (pl, pidx) in plan.items()}
+        for chk, (pl, pidx) in sorted(plan.items()):
+            bad, err = futs[chk].result()
+            if err:
+                ctx.fail('correspondence', '%s model evaluation failed: %s' % (chk, err[-600:]), None)
+            for b in bad[:5]:
+                i = pidx[b]
+                ctx.fail('correspondence', 'Model/Factor2.v / FactorDense.v (%s) and the code disagree' % chk,
+                         {'stream': kind, 'case': cases[i], 'impl': res[i]})
+            ctx.cov['traces_validated_against_impl'] += len(pl)
+            ctx.cov.setdefault('plan_traces', {})[chk] = len(pl)
+        ctx.cov['timings_s'][kind] = round(time.time() - t_stream, 1)
     ctx.cov['input_distribution'] = hist
     ctx.assumptions += [
         'C05: only the charge/leg bookkeeping of svd and qr/lq is proved (Model/Factor.v); LAPACK results, reconstruction, isometry, triangularity, '
